@@ -294,9 +294,11 @@ def check_C20(tier, seed):
                       'Exact differentiation (theories/DiffKernel.v, odd n -- the only parity Qsc uses): with topc the exact cosecants the matrix entry is s/2 (-1)^d / sin(pi d/n), it is the derivative of the '
                       'Dirichlet kernel, and applied to cos(p x_j), sin(p x_j) for every p <= n/2 (hence to every trigonometric polynomial of that degree) it returns the exact derivative at the nodes; '
                       'the matrices of the nfp = k and nfp = 1 declarations replicate (Dspec_replicates, odd k). '
-                      'NOT proved (harness only): exactness of the interpolant away from the nodes, Newton convergence on smooth well-posed systems; floats are idealised as reals in the exactness statements.',
-                      gprops=False, seq_obligations=[], theory_obligations=['Newton', 'DiffMat', 'Bracket', 'TrigSum', 'DiffKernel'],
-                      theorems=['DiffKernel.Dspec_entry', 'DiffKernel.Dspec_kernel', 'DiffKernel.Dspec_exact_cos', 'DiffKernel.Dspec_exact_sin', 'DiffKernel.Dspec_exact_trigpoly', 'DiffKernel.trigpoly_derive',
+                      'Interpolation (theories/InterpKernel.v, odd n): off the nodes the barycentric formula of fourier_interpolation IS the Dirichlet-kernel interpolant, it reproduces cos(p x), sin(p x), p <= n/2 and every trigonometric '
+                      'polynomial of that degree exactly at every x, takes the sample values at the nodes and is continuous; the interpolants of the nfp = k and nfp = 1 declarations have the same range. '
+                      'NOT proved (harness only): Newton convergence on smooth well-posed systems; floats are idealised as reals in the exactness statements.',
+                      gprops=False, seq_obligations=[], theory_obligations=['Newton', 'DiffMat', 'Bracket', 'TrigSum', 'DiffKernel', 'InterpKernel'],
+                      theorems=['InterpKernel.interp_is_kernel', 'InterpKernel.interp_exact_trigpoly', 'InterpKernel.kinterp_node', 'InterpKernel.kinterp_continuous', 'InterpKernel.interp_replicates', 'DiffKernel.Dspec_entry', 'DiffKernel.Dspec_kernel', 'DiffKernel.Dspec_exact_cos', 'DiffKernel.Dspec_exact_sin', 'DiffKernel.Dspec_exact_trigpoly', 'DiffKernel.trigpoly_derive',
                                 'DiffKernel.Dspec_replicates', 'DiffMat.DR_antisym', 'DiffMat.DR_circulant', 'DiffMat.DR_rowsum', 'DiffMat.DR_shift', 'DiffMat.DR_rev',
                                 'Newton.never_worse_than_initial', 'Newton.accepted_chain_decreasing', 'Newton.no_warning_means_best_small'])
 
@@ -419,9 +421,10 @@ def check_C06(tier, seed):
                       '(tables/rep_cover.json) of every translated physics stage: re-declaring nfp -> nfp/k on a k times longer grid replicates every profile k times, multiplies grid sums and helicity by k '
                       'and leaves iota, iotaN = iota + helicity*nfp and all scale lengths / Mercier / tensor quantities unchanged; the residual equations of the sigma and O(r^2) solves are preserved. '
                       'The premise on the differentiation matrices (long-grid matrix applied to a replicated profile = replication of the short-grid derivative) is PROVED for the spectral matrix with exact cosecants, '
-                      'odd n and odd k (theories/DiffKernel.v: Dspec_replicates, C06_checked, via the Dirichlet-kernel form of the matrix and discrete orthogonality). Remaining premise: fourier_minimum sees the same interpolant. Not covered: quantities built from phi / varphi (untwisted coefficients on helical axes, '
+                      'odd n and odd k (theories/DiffKernel.v: Dspec_replicates, C06_checked, via the Dirichlet-kernel form of the matrix and discrete orthogonality). The interpolants searched by fourier_minimum have the same set of values and the same lower bounds (theories/InterpKernel.v: interp_replicates, interp_same_lower_bounds), so the remaining premise fmin_replicates '
+                      'reduces to "minimize_scalar returns the global minimum of the interpolant". Not covered: quantities built from phi / varphi (untwisted coefficients on helical axes, '
                       'Cartesian components, B_mag at a given angle), the sigma pin, iota2; k even (grids do not coincide); Newton uniqueness.',
-                      theory_obligations=['Replicate', 'DiffKernel'], theorems=['Replicate.rep_check_sound', 'DiffKernel.Dspec_replicates', 'DiffKernel.C06_checked'],
+                      theory_obligations=['Replicate', 'DiffKernel', 'InterpKernel'], theorems=['Replicate.rep_check_sound', 'DiffKernel.Dspec_replicates', 'DiffKernel.C06_checked', 'InterpKernel.interp_replicates', 'InterpKernel.interp_same_lower_bounds'],
                       ncorr=(5 if tier == 'quick' else 20))
 
 
@@ -466,13 +469,29 @@ def check_C18(tier, seed):
                       theorems=['C18_even_is_next_odd', 'C18_always_odd', 'C18_same_object'])
 
 
+def check_C10(tier, seed):
+    return reflective('C10', tier, seed, 'oracle_C10',
+                      'Proved on the regenerated programs (init_axis, r1_diagnostics, calculate_r2, calculate_grad_B_tensor, calculate_grad_grad_B_tensor, the two API variants, _residual) sharing one object state, '
+                      'in the CONTINUUM model (d/dphi a derivation), for every index type: the tensor is symmetric in its two derivative indices (9 identities), the contraction of the component index with a derivative index '
+                      'vanishes (3), the two derivations of the code agree in all 27 components, the contraction with the tangent equals d/dl of the grad B tensor including the Frenet-Serret rotation of the frame (9), '
+                      'the a = t slice is symmetric up to the explicit current term 2 sG spsi I2 kappa (from the sigma equation), L_grad_grad_B * inverse = 1, inverse^2 * 4 B0 = Frobenius norm, the scalar is the maximum of the profile; '
+                      'grad_grad_B_tensor_cartesian is the rotation about Z of what grad_grad_B_tensor_cylindrical returns. '
+                      'REFUTED as stated and recorded as known findings: grad_grad_B_tensor_cylindrical() returns the Frenet-frame array (theorem C10_cylindrical_is_frenet; the only test of it pins exactly that), so the Cartesian variant '
+                      'is the rotation of Frenet components. Vacuum full symmetry / harmonicity: props/C10_vacuum.v when present, otherwise harness only (measured on resolved grids). '
+                      'Hypotheses: admissibility (sG^2 = spsi^2 = 1, etabar, curvature, d_varphi_d_phi non-zero, B0 > 0, |G0|/B0 > 0), constant scalar inputs, sigma equation solved.',
+                      gprops=False, seq_obligations=['props/C10_spec.v', 'props/C10.v'] + (['props/C10_vacuum.v'] if os.path.exists(os.path.join(COQ, 'props', 'C10_vacuum.v')) else []),
+                      ncorr=(6 if tier == 'quick' else 40),
+                      theorems=['C10_two_ways', 'C10_sym12', 'C10_divfree', 'C10_tangent_contraction', 'C10_scale_length', 'C10_cylindrical_is_frenet', 'C10_cartesian_is_rotation_of_that',
+                                'C10_cartesian_rotates_frenet', 'C10_tangent_slice_curl', 'C10_vacuum_tangent_slice_symmetric'])
+
+
 # hand-written theories each check depends on (others are not built, so work in progress elsewhere cannot disturb it)
 NEEDS = {
     'C08': ['Expr', 'Equiv', 'Dim'], 'C07': ['Expr', 'Equiv', 'Sign', 'Shift', 'Shallow', 'DiffMat'], 'C05': ['Expr', 'Equiv', 'Sign', 'Shift', 'Shallow', 'DiffMat'],
-    'C04': ['Expr', 'Shallow'], 'C11': ['Expr', 'Shallow'], 'C13': ['Expr', 'Shallow', 'Quadrant'], 'C19': ['Expr', 'Equiv', 'Dim', 'Sign'], 'C17': ['Expr', 'Effects'], 'C12': ['Expr', 'Equiv', 'Dim', 'Sign', 'Shallow', 'RootSelect'], 'C16': ['Expr', 'Effects', 'ObjModel'], 'C09': ['Expr', 'Shallow', 'Pipeline'], 'C03': ['Expr', 'Shallow', 'Pipeline'], 'C06': ['Expr', 'Equiv', 'Sign', 'Shift', 'Replicate', 'DiffMat', 'TrigSum', 'DiffKernel'], 'C14': ['Expr', 'Shallow', 'TrigSum'], 'C15': ['Expr', 'Shallow', 'TrigSum', 'VmecEmit'], 'C18': ['Expr', 'ObjModel'], 'C10': ['Expr', 'Shallow'], 'C01': ['Expr', 'Shallow', 'Series'], 'C02': ['Expr', 'Shallow', 'Newton'],
-    'C20': ['Expr', 'Equiv', 'Sign', 'Shift', 'Replicate', 'DiffMat', 'Newton', 'Bracket', 'TrigSum', 'DiffKernel'],
+    'C04': ['Expr', 'Shallow'], 'C11': ['Expr', 'Shallow'], 'C13': ['Expr', 'Shallow', 'Quadrant'], 'C19': ['Expr', 'Equiv', 'Dim', 'Sign'], 'C17': ['Expr', 'Effects'], 'C12': ['Expr', 'Equiv', 'Dim', 'Sign', 'Shallow', 'RootSelect'], 'C16': ['Expr', 'Effects', 'ObjModel'], 'C09': ['Expr', 'Shallow', 'Pipeline'], 'C03': ['Expr', 'Shallow', 'Pipeline'], 'C06': ['Expr', 'Equiv', 'Sign', 'Shift', 'Replicate', 'DiffMat', 'TrigSum', 'DiffKernel', 'Bracket', 'InterpKernel'], 'C14': ['Expr', 'Shallow', 'TrigSum'], 'C15': ['Expr', 'Shallow', 'TrigSum', 'VmecEmit'], 'C18': ['Expr', 'ObjModel'], 'C10': ['Expr', 'Shallow'], 'C01': ['Expr', 'Shallow', 'Series'], 'C02': ['Expr', 'Shallow', 'Newton'],
+    'C20': ['Expr', 'Equiv', 'Sign', 'Shift', 'Replicate', 'DiffMat', 'Newton', 'Bracket', 'TrigSum', 'DiffKernel', 'InterpKernel'],
 }
-CHECKS = {'C06': check_C06, 'C14': check_C14, 'C15': check_C15, 'C18': check_C18, 'C12': check_C12, 'C16': check_C16, 'C17': check_C17, 'C03': check_C03, 'C19': check_C19, 'C09': check_C09, 'C13': check_C13, 'C11': check_C11, 'C02': check_C02, 'C20': check_C20, 'C04': check_C04, 'C08': check_C08, 'C07': check_C07, 'C05': check_C05}
+CHECKS = {'C10': check_C10, 'C06': check_C06, 'C14': check_C14, 'C15': check_C15, 'C18': check_C18, 'C12': check_C12, 'C16': check_C16, 'C17': check_C17, 'C03': check_C03, 'C19': check_C19, 'C09': check_C09, 'C13': check_C13, 'C11': check_C11, 'C02': check_C02, 'C20': check_C20, 'C04': check_C04, 'C08': check_C08, 'C07': check_C07, 'C05': check_C05}
 
 
 def main():
@@ -484,7 +503,7 @@ def main():
     seed = int(os.environ.get('VERIF_SEED', '20240930'))
     if a.replay:
         rep = json.load(open(a.replay))
-        mod = {'C08': 'oracle_C08', 'C07': 'oracle_sym', 'C05': 'oracle_sym', 'C04': 'oracle_C04', 'C02': 'oracle_C02', 'C20': 'kernels', 'C11': 'oracle_C11', 'C13': 'oracle_C13', 'C09': 'oracle_C09', 'C19': 'oracle_C19', 'C03': 'oracle_C03', 'C17': 'oracle_C17', 'C16': 'oracle_C16', 'C12': 'oracle_C12', 'C06': 'oracle_C06', 'C14': 'oracle_C14', 'C15': 'oracle_C15', 'C18': 'oracle_C18'}.get(a.prop)
+        mod = {'C08': 'oracle_C08', 'C07': 'oracle_sym', 'C05': 'oracle_sym', 'C04': 'oracle_C04', 'C02': 'oracle_C02', 'C20': 'kernels', 'C11': 'oracle_C11', 'C13': 'oracle_C13', 'C09': 'oracle_C09', 'C19': 'oracle_C19', 'C03': 'oracle_C03', 'C17': 'oracle_C17', 'C16': 'oracle_C16', 'C12': 'oracle_C12', 'C06': 'oracle_C06', 'C14': 'oracle_C14', 'C15': 'oracle_C15', 'C18': 'oracle_C18', 'C10': 'oracle_C10'}.get(a.prop)
         res = harness(mod, (['--prop', a.prop] if mod == 'oracle_sym' else []) + ['--mode', 'replay', '--file', a.replay])
         print(json.dumps(res, indent=1))
         return 1 if res.get('violations') else 0
